@@ -325,3 +325,275 @@ def c13_cases(u, groups, rng, tier):
 
 GENERATORS['C12'] = c12_cases
 GENERATORS['C13'] = c13_cases
+
+
+# ------------------------------------------------------------------ sessions (state between calls)
+
+def small_val(u, rng, name):
+    return ValGen(u, rng, big=False, max_depth=2).val(st(name))
+
+
+def random_op(u, groups, rng, names, bad_names):
+    """one API call in the case syntax, over valid and invalid types"""
+    r = rng.below(100)
+    if r < 12 and bad_names:
+        return '(api3 %s)' % rng.pick(bad_names), {'op': 'api3-invalid'}
+    name = rng.pick(names)
+    if r < 20:
+        return '(api3 %s)' % name, {'op': 'api3-valid', 'type': name}
+    v = small_val(u, rng, name)
+    mode = 'val' if rng.chance(1, 3) else 'ptr'
+    if r < 45:
+        return '(rt %s %s %s)' % (name, mode, val_sx(v)), {'op': 'rt', 'type': name}
+    if r < 60:
+        return '(enc %s %s %s)' % (name, mode, val_sx(v)), {'op': 'enc', 'type': name}
+    w = denote_py(u, st(name), v)
+    if rng.chance(1, 2):
+        w = mutate_tree(rng, w, [30000, 3, 65535])
+    marks = []
+    msg = put_py(w, marks)
+    if r < 85:
+        return '(dec %s %s %s)' % (name, dst_choice(u, rng, name), hexs(msg)), {'op': 'dec', 'type': name}
+    # a decode that fails midway through a container
+    bad = corrupt(rng, msg, marks)
+    lab, bs = rng.pick(bad) if bad else ('prefix', msg[:1])
+    return '(dec %s fresh %s)' % (name, hexs(bs)), {'op': 'dec-bad', 'type': name}
+
+
+def c07_sessions(u, groups, rng, tier):
+    """call histories: every call's result must be the stateless model's result"""
+    b = budget(tier)
+    names = all_names(u)
+    bad = groups.get('poison', []) + groups.get('invalid-nested', []) + groups.get('invalid', [])[:20]
+    # types whose maps hold by-value structs, structs with required ids, holders: where leftovers would show
+    focus = [n for n in names if n.startswith('M1') and n.endswith('XLeaf')] + groups.get('ids', []) + groups.get('holder', []) + \
+            groups.get('defaults', []) + groups.get('structs', [])
+    sessions = []
+    for h in range(b['histories']):
+        r = rng.fork('hist%d' % h)
+        pool = [r.pick(names) for _ in range(8)] + [r.pick(focus) for _ in range(4)]
+        sess = []
+        for _ in range(10 + r.below(30)):
+            sess.append(random_op(u, groups, r, pool, bad if r.chance(1, 2) else []))
+        sessions.append(sess)
+    # first-use orders of mutually nested and poisoned types
+    orders = [['PA', 'PQ'], ['PQ', 'PA', 'PQ'], ['PX', 'PY', 'PZ'], ['PZ', 'PY'], ['PB', 'PQ', 'PA'], ['PY', 'PX', 'PZ', 'PQ'],
+              ['MutA', 'MutB'], ['MutB', 'MutA'], ['Rec', 'RecKey'], ['PA', 'MutA', 'PQ', 'MutB'], ['Bad136', 'Leaf', 'Bad1', 'Bad136']]
+    for o in orders:
+        sess = []
+        for n in o:
+            if n in u.by_name:
+                sess.append(('(api3 %s)' % n, {'op': 'api3-order', 'type': n}))
+        for n in o:
+            if n in u.by_name and not u.by_name[n].invalid:
+                v = small_val(u, rng.fork('o' + n), n)
+                sess.append(('(rt %s ptr %s)' % (n, val_sx(v)), {'op': 'rt', 'type': n}))
+        sessions.append(sess)
+    return {'sessions': sessions}
+
+
+def c17_sessions(u, groups, rng, tier):
+    """legacy calls before / between / after codec calls, under generated environments"""
+    names = all_names(u)
+    k = 24 if tier == 'quick' else 200
+    envs_pool = [None, {'FRUGAL_MAX_INLINE_DEPTH': '2'}, {'FRUGAL_MAX_INLINE_DEPTH': '7', 'FRUGAL_MAX_INLINE_IL_SIZE': '257'},
+                 {'FRUGAL_MAX_INLINE_IL_SIZE': '0x7fffffff'}, {'FRUGAL_MAX_INLINE_DEPTH': '0b11'}, {'FRUGAL_MAX_INLINE_DEPTH': '1_000'},
+                 {'FRUGAL_MAX_INLINE_DEPTH': '017', 'FRUGAL_MAX_INLINE_IL_SIZE': '1000000'}, {'FRUGAL_MAX_INLINE_DEPTH': '9223372036854775807'}]
+    legacy = ['Pretouch', 'NoJIT', 'SetMaxInlineDepth', 'SetMaxInlineILSize', 'GetStats', 'WithOptions']
+    bad = groups.get('invalid', [])[:30] + groups.get('poison', [])
+    sessions, envs = [], []
+    for h in range(k):
+        r = rng.fork('leg%d' % h)
+        pool = [r.pick(names) for _ in range(6)]
+        # the same codec calls with and without legacy calls interleaved, under some environment
+        codec = [random_op(u, groups, r, pool, []) for _ in range(6 + r.below(8))]
+        sess = [('(env)', {'op': 'env'})]
+        for c in codec:
+            for _ in range(r.below(3)):
+                f = r.pick(legacy)
+                arg = r.pick([0, 1, 2, 50000, 2147483647, 7])
+                tn = r.pick(pool + bad)
+                sess.append(('(legacy %s %d %s)' % (f, arg, tn), {'op': 'legacy', 'fn': f}))
+            sess.append(c)
+        sessions.append(sess)
+        envs.append(r.pick(envs_pool))
+    return {'sessions': sessions, 'envs': envs}
+
+
+def c18_cases(u, groups, rng, tier):
+    out = []
+    k = 2 if tier == 'quick' else 8
+    for name in all_names(u):
+        r = rng.fork('c18' + name)
+        vals = values_for(u, r, name, k, big=True)
+        if name in groups.get('maps1', []):
+            ms = map_size_values(u, r, name)
+            vals += [ms[0], ms[4], ms[6]] if tier == 'quick' else ms
+        for v in vals:
+            out.append(('(allocs %s %s)' % (name, val_sx(v)), {'type': name, 'op': 'allocs'}))
+    # one process, one goroutine: allocation counts are process-wide
+    return {'sessions': [out[i::8] for i in range(8)]}
+
+
+def c06_sessions(u, groups, rng, tier):
+    """decodes whose results are kept alive while further messages are decoded, input buffers are
+    overwritten and collections run; memory pieces examined after every decode"""
+    names = all_names(u)
+    k = 40 if tier == 'quick' else 600
+    sessions = []
+    big_sizes = [1, 7, 8, 255, 256, 257, 300, 2040, 2047, 2048, 2049, 4100]
+    for h in range(k):
+        r = rng.fork('mem%d' % h)
+        pool = [r.pick(names) for _ in range(5)] + [r.pick(groups['lists'] + groups['scalars'] + groups['nocopy'] + groups['maps'])]
+        sess = []
+        for j in range(6 + r.below(6)):
+            name = r.pick(pool)
+            v = ValGen(u, r, big=r.chance(1, 2), max_depth=3).val(st(name))
+            msg = put_py(denote_py(u, st(name), v))
+            op = 'keep' if r.chance(2, 3) else 'mem'
+            sess.append(('(%s %s %s)' % (op, name, hexs(msg)), {'type': name, 'op': op, 'msglen': len(msg) // 256}))
+            if r.chance(1, 3):
+                sess.append(('(recheck)', {'op': 'recheck'}))
+        sess.append(('(recheck)', {'op': 'recheck'}))
+        sessions.append(sess)
+    # allocator thresholds: strings and scalar lists straddling 256 (large-object cut) and 2048 (block size)
+    for sz in big_sizes:
+        sess = []
+        for name, mk in [('ScString', lambda n: ('t', b'', [('b', bytes([97]) * n), ('b', b'r'), ('b', b''), ('pn',)])),
+                         ('LiI64', lambda n: ('t', b'', [('l', [('s', i) for i in range(n // 8 + 1)]), ('ln',), ('l', [])])),
+                         ('LiI8', lambda n: ('t', b'', [('l', [('s', i % 256) for i in range(n)]), ('ln',), ('l', [])])),
+                         ('LiI16', lambda n: ('t', b'', [('l', [('s', i % 65536) for i in range(n // 2 + 1)]), ('ln',), ('l', [])]))]:
+            if name in u.by_name:
+                msg = put_py(denote_py(u, st(name), mk(sz)))
+                sess.append(('(keep %s %s)' % (name, hexs(msg)), {'type': name, 'op': 'keep', 'threshold': sz}))
+        sess.append(('(recheck)', {'op': 'recheck'}))
+        sessions.append(sess)
+    # operation-level: the bump allocator itself
+    ops = []
+    for h in range(30 if tier == 'quick' else 400):
+        r = rng.fork('span%d' % h)
+        reqs = ' '.join('(%d %d)' % (r.pick([0, 1, 2, 3, 7, 8, 9, 100, 255, 256, 257, 1000, 2040, 2047, 2048, 2049, 5000, r.below(300)]), r.pick([1, 2, 4, 8]))
+                        for _ in range(1 + r.below(40)))
+        ops.append(('(span %s)' % reqs, {'op': 'span'}))
+    sessions.append(ops)
+    return {'sessions': sessions}
+
+
+def c14_cases(u, groups, rng, tier):
+    out = []
+    nc = [s.name for s in valid_structs(u) if any(f.nocopy for f in s.fields)]
+    users = [s.name for s in valid_structs(u) if any(n in annot(f.ty) for f in s.fields if f.ty for n in nc)]
+    k = 10 if tier == 'quick' else 80
+    for name in nc + users + groups.get('nocopy', []):
+        r = rng.fork('c14' + name)
+        for j in range(k):
+            v = ValGen(u, r, big=(j % 3 == 0), max_depth=3).val(st(name))
+            w = denote_py(u, st(name), v)
+            if j % 2:
+                w = mutate_tree(r, w, [30000])
+            out.append(('(mem %s %s)' % (name, hexs(put_py(w))), {'type': name, 'op': 'mem'}))
+    # types without the option never reference the buffer
+    for name in groups.get('scalars', []) + groups.get('lists', [])[:8]:
+        r = rng.fork('c14n' + name)
+        v = ValGen(u, r, big=False, max_depth=3).val(st(name))
+        out.append(('(mem %s %s)' % (name, hexs(put_py(denote_py(u, st(name), v)))), {'type': name, 'op': 'mem-plain'}))
+    return out
+
+
+def c08_sessions(u, groups, rng, tier):
+    """goroutines released together onto types never used before in the process"""
+    names = all_names(u)
+    k = 30 if tier == 'quick' else 400
+    sessions = []
+    nested = ['MutA', 'MutB', 'Rec', 'RecKey', 'DefHolder', 'HoldNest', 'StPtr', 'StVal']
+    for h in range(k):
+        r = rng.fork('conc%d' % h)
+        n = r.pick([2, 4, 16, 64])
+        pool = [r.pick(names) for _ in range(r.pick([1, 2, 4]))] + [r.pick(nested)]
+        cs = []
+        for _ in range(n * r.pick([1, 2, 3])):
+            sx, _info = random_op(u, groups, r, pool, [])
+            if sx.startswith('(api3'):
+                continue
+            cs.append(sx)
+        sess = [('(conc %d %s)' % (n, ' '.join(cs)), {'op': 'conc', 'goroutines': n})]
+        # steady state afterwards, mixed with first use of more types
+        pool2 = pool + [r.pick(names) for _ in range(3)]
+        cs2 = [random_op(u, groups, r, pool2, [])[0] for _ in range(n * 2)]
+        cs2 = [c for c in cs2 if not c.startswith('(api3')]
+        sess.append(('(conc %d %s)' % (n, ' '.join(cs2)), {'op': 'conc', 'goroutines': n}))
+        sessions.append(sess)
+    ops = []
+    for h in range(20 if tier == 'quick' else 300):
+        r = rng.fork('dm%d' % h)
+        keys = [r.pick([1, 2, 65536 + 1, 65536 * 2 + 1, 65536 * 3 + 2, r.below(1 << 40)]) for _ in range(6)]
+        body = ' '.join(('(0 %d %d)' % (r.pick(keys), 1 + r.below(5))) if r.chance(1, 2) else ('(1 %d)' % r.pick(keys)) for _ in range(5 + r.below(40)))
+        ops.append(('(descmap %s)' % body, {'op': 'descmap'}))
+    sessions.append(ops)
+    return {'sessions': sessions}
+
+
+def hook_cases_bitset(rng, tier):
+    out = []
+    ids = [0, 1, 62, 63, 64, 65, 127, 128, 129, 1023, 1024, 4095, 4096, 32767, 32768, 65534, 65535]
+    for h in range(30 if tier == 'quick' else 500):
+        r = rng.fork('bs%d' % h)
+        pool = [r.pick(ids) for _ in range(5)] + [r.below(65536) for _ in range(3)]
+        body = ' '.join('(%d %d)' % (r.pick([0, 0, 1, 2, 2]), r.pick(pool)) for _ in range(10 + r.below(60)))
+        out.append(('(bitset %s)' % body, {'op': 'bitset'}))
+    return out
+
+
+def hook_cases_unknown(rng, tier):
+    out = []
+    for h in range(20 if tier == 'quick' else 300):
+        r = rng.fork('uk%d' % h)
+        n = 8 + r.below(60)
+        b = bytes(r.below(256) for _ in range(n))
+        adds = []
+        for _ in range(r.below(12)):
+            off = r.below(n)
+            adds.append('(%d %d)' % (off, r.below(n - off + 1)))
+        out.append(('(unknown %s %s)' % (b.hex(), ' '.join(adds)), {'op': 'unknown'}))
+    return out
+
+
+_c09 = c09_cases
+_c11 = c11_cases
+_c02 = GENERATORS['C02']
+_c05 = c05_cases
+
+
+def c09_all(u, g, r, t):
+    return _c09(u, g, r, t) + hook_cases_bitset(r.fork('bitset'), t)
+
+
+def c11_all(u, g, r, t):
+    return _c11(u, g, r, t) + hook_cases_unknown(r.fork('unknown'), t)
+
+
+def c02_all(u, g, r, t):
+    return _c02(u, g, r, t) + [('(dispatch)', {'op': 'dispatch'})]
+
+
+def c05_all(u, g, r, t):
+    base = _c05(u, g, r, t)
+    # memory and time of a sample of the same malformed inputs, plus hostile counts
+    extra = []
+    rr = r.fork('decm')
+    for sx, info in base:
+        if rr.chance(1, 12 if t == 'quick' else 4):
+            m = sx.split(' ')
+            extra.append(('(decm %s %s)' % (m[1], m[3].rstrip(')')), {'op': 'decm', 'type': m[1]}))
+    for name, hdr in [('LiI64', b'\x0f\x00\x01\x0a'), ('LiString', b'\x0f\x00\x01\x0b'), ('LiLeaf', b'\x0f\x00\x01\x0c'),
+                      ('M1I32XString', b'\x0d\x00\x01\x08\x0b'), ('M1StringXPLeaf', b'\x0d\x00\x01\x0b\x0c'), ('ScString', b'\x0b\x00\x01'),
+                      ('ScBinary', b'\x0b\x00\x01')]:
+        if name in u.by_name:
+            for cnt in (0x7fffffff, 0x00ffffff, 0x0000ffff, 1 << 20):
+                for pad in (0, 64, 4096):
+                    extra.append(('(decm %s %s)' % (name, (hdr + cnt.to_bytes(4, 'big') + b'\x00' * pad).hex()), {'op': 'decm-hostile', 'type': name}))
+    return base + extra
+
+
+GENERATORS.update({'C02': c02_all, 'C05': c05_all, 'C06': c06_sessions, 'C07': c07_sessions, 'C08': c08_sessions, 'C09': c09_all,
+                   'C11': c11_all, 'C14': c14_cases, 'C17': c17_sessions, 'C18': c18_cases})
